@@ -14,6 +14,7 @@ pub struct Outcome {
     pub hidden_compared: u64,
     pub drifts: u64,
     pub drift_samples: Vec<Value>,
+    pub drift_sites: Vec<(usize, usize)>,
     pub violations: Vec<Value>,
     pub samples: Vec<Value>,
 }
@@ -55,7 +56,7 @@ fn hidden_matches(stack: Stack, to: &Value, real: &[(&'static str, i64)]) -> Opt
 pub fn run(runs: &[Value], max_samples: usize) -> Outcome {
     let mut out = Outcome {
         runs: 0, steps: 0, hidden_compared: 0, drifts: 0,
-        drift_samples: vec![], violations: vec![], samples: vec![],
+        drift_samples: vec![], drift_sites: vec![], violations: vec![], samples: vec![],
     };
     for (ri, run) in runs.iter().enumerate() {
         out.runs += 1;
@@ -189,6 +190,9 @@ pub fn run(runs: &[Value], max_samples: usize) -> Outcome {
                 out.hidden_compared += 1;
                 if !ok {
                     out.drifts += 1;
+                    if out.drift_sites.len() < 5000 {
+                        out.drift_sites.push((ri, si));
+                    }
                     if out.drift_samples.len() < 5 {
                         out.drift_samples.push(json!({"run": ri, "par": par, "step": si, "why": "hidden-state",
                             "model": step["to"], "real": hid_to_json(&hs)}));
@@ -209,7 +213,7 @@ pub fn main(args: &[String]) {
     let o = run(&runs, 3);
     write_json(&args[1], &json!({
         "runs": o.runs, "steps": o.steps, "hidden_compared": o.hidden_compared,
-        "drifts": o.drifts, "drift_samples": o.drift_samples,
+        "drifts": o.drifts, "drift_samples": o.drift_samples, "drift_sites": o.drift_sites,
         "violations": o.violations, "samples": o.samples,
         "constants": mla::verif::constants().iter().map(|(k, v)| (k.to_string(), json!(v))).collect::<serde_json::Map<_, _>>(),
     }));
